@@ -37,6 +37,26 @@ theorem fact_regex_timeout_bounded :
     Facts.C12.regexMatchTimeoutValue ∈ ["time.Second", "time.Millisecond", "100 * time.Millisecond", "500 * time.Millisecond", "2 * time.Second"] := by
   decide
 
+/-! call sites of vcr/pe (wiring of the consumers; the behaviour is exercised by the iam / holder harness legs) -/
+
+/-- `PEXConsumer.fulfill` is called from exactly the two token/response handlers, and both return when it fails -/
+theorem fact_fulfill_callers_return_on_error :
+    Facts.C12.iamFulfillCallers = [("handleAuthorizeResponseSubmission", true), ("handleS2SAccessTokenRequest", true)] := by decide
+
+/-- `fulfill` validates against the required definition before it stores the submission; `credentialMap` resolves each
+    stored submission in the stored envelope of the same definition; the access token's field map is computed from
+    that credential map -/
+theorem fact_consumer_wiring :
+    Facts.C12.fulfillValidatesBeforeStoring = true ∧ Facts.C12.credentialMapResolvesInOwnEnvelope = true ∧
+    Facts.C12.accessTokenFieldsFromCredentialMap = true := by decide
+
+/-- the callers that zip `Match`'s two results rely on the alignment proved in `match_sound` (`AlignedBy`): discovery
+    `Search`, `Validate`; discovery registration requires every presented credential to be selected; the presenter puts
+    exactly the sign instruction's credentials in the presentation -/
+theorem fact_match_result_consumers :
+    Facts.C12.discoverySearchZipsMatchResultsByIndex = true ∧ Facts.C12.discoveryRegistrationMatchesAllCredentials = true ∧
+    Facts.C12.validateZipsMappingsAndCredentialsByIndex = true ∧ Facts.C12.presenterPresentsSignInstructionCredentials = true := by decide
+
 /-- the configuration the model is run with is the repaired one -/
 theorem fact_cfg_fixed : Facts.C12.cfg = Cfg.fixed := by decide
 
